@@ -96,7 +96,7 @@ def replay_kernel(name, args):
 
 
 def run():
-  return pairrun.run_pairs('C14', [('lv.gen_meta', 'c14_pairs', 18, 120)], FUNCTIONS, ASSUMPTIONS,
+  return pairrun.run_pairs('C14', [('lv.gen_meta', 'c14_pairs', 24, 240)], FUNCTIONS, ASSUMPTIONS,
                            'DESIGN.md §3 C14', rejected_is_violation=lambda r: True, level='other',
                            extra_fn=kernel_part)
 
